@@ -1,6 +1,7 @@
 package checks
 
 import (
+	"io"
 	"bytes"
 	"fmt"
 	"os"
@@ -522,7 +523,79 @@ func WireViaWriteTo(m *diam.Message) ([]byte, error) {
 	if _, err := dirtyMsg.WriteTo(&sink); err != nil {
 		return nil, err
 	}
-	var out bytes.Buffer
-	_, err := m.WriteTo(&out)
-	return out.Bytes(), err
+	// The destination takes its time: before it consumes the bytes it was handed, another message
+	// goes through WriteTo on another writer (what a second goroutine may do while this Write is
+	// pending) - the bytes handed to Write must not change under it.
+	out := &busyWriter{}
+	_, err := m.WriteTo(out)
+	if out.err != nil {
+		return nil, out.err
+	}
+	return out.buf.Bytes(), err
+}
+
+type busyWriter struct {
+	buf bytes.Buffer
+	err error
+}
+
+func (w *busyWriter) Write(p []byte) (int, error) {
+	if _, err := dirtyMsg.WriteTo(io.Discard); err != nil {
+		w.err = err
+	}
+	return w.buf.Write(p)
+}
+
+// ReadOverlapped reads the wire image w the way a connection's reader does when another
+// connection is busy at the same time: a message too large for the pooled read buffer has been
+// read earlier, and while this read has received only half of its body, another message is read
+// completely from another source (the nested read stands for a second goroutine; the reader
+// hands out the rest only afterwards).
+func ReadOverlapped(w []byte, p *dict.Parser) (*diam.Message, error) {
+	if overlapBig == nil {
+		overlapBig = refcodec.EncodeMessage(refcodec.Header{Version: 1, Flags: 0x80, Code: 257, HbH: 7, E2E: 7}, []refcodec.Node{{Code: 60001, Payload: bytes.Repeat([]byte{0xBB}, 1500)}})
+		overlapOther = refcodec.EncodeMessage(refcodec.Header{Version: 1, Flags: 0x80, Code: 257, HbH: 8, E2E: 8}, []refcodec.Node{{Code: 60001, Payload: bytes.Repeat([]byte{0xEE}, 980)}})
+	}
+	if _, err := diam.ReadMessage(bytes.NewReader(overlapBig), dict.Default); err != nil {
+		return nil, fmt.Errorf("harness: oversize message: %v", err)
+	}
+	r := &overlapReader{data: w}
+	m, err := diam.ReadMessage(r, p)
+	if r.err != nil {
+		return nil, fmt.Errorf("harness: nested read: %v", r.err)
+	}
+	return m, err
+}
+
+var overlapBig, overlapOther []byte
+
+type overlapReader struct {
+	data   []byte
+	pos    int
+	nested bool
+	err    error
+}
+
+func (r *overlapReader) Read(p []byte) (int, error) {
+	if r.pos >= len(r.data) {
+		return 0, io.EOF
+	}
+	end := len(r.data)
+	switch {
+	case r.pos < 20:
+		end = 20
+	case !r.nested && len(r.data)-r.pos >= 2 && r.pos == 20:
+		end = r.pos + (len(r.data)-r.pos)/2
+	case !r.nested:
+		r.nested = true
+		if _, err := diam.ReadMessage(bytes.NewReader(overlapOther), dict.Default); err != nil {
+			r.err = err
+		}
+	}
+	if end > len(r.data) {
+		end = len(r.data)
+	}
+	n := copy(p, r.data[r.pos:end])
+	r.pos += n
+	return n, nil
 }
